@@ -7,6 +7,7 @@ import (
 	"errors"
 	"io"
 	"net"
+	"time"
 )
 
 // C18 — connection set-up.
@@ -88,8 +89,15 @@ func verifH_C18_connect() {
 	conn.wfaults = verifParam("wfaults", 1)
 	conn.coarse = verifParam("coarse", 1) == 1
 
+	ramp := time.Duration(verifInt("ramp"))
+	c.reconnectWait = ramp
 	err := c.connect()
 	verifTokensHome(c, "C10/C18(connect)")
+	if err != nil {
+		verifAssert(c.reconnectWait == ramp, "C10: backoff ramp-up reset although the connect attempt failed (consecutive failures would not double the wait)")
+	} else {
+		verifAssert(c.reconnectWait == 0, "C10: backoff ramp-up not reset after a successful connect")
+	}
 
 	tok := <-c.writeSem
 	c.writeSem <- tok
